@@ -21,6 +21,7 @@
    there is none).  The clock does not advance inside a behaviour (the replayer places timestamps
    hours away from the boundary, so wall-clock drift cannot flip an outcome).
 
+   Switches (FALSE = the code as it is).  FixSampleOnReorg: see ApplyTimeFloor.
    FixPruneAtomicFloor = FALSE is the code as it is (H12): the commitments rows — which define the
    oldest retained block, the resume point and the re-seeded floor — are only deleted by the final
    range delete; TRUE puts the range deletes up to the block reached into every flushed batch, so
@@ -39,7 +40,8 @@ CONSTANTS
   MaxSteps,      \* chain/environment operations per behaviour
   EnableRevert,
   EnableInterrupts,  \* FALSE: prunes run to completion (fault-free sequences for the enumerator)
-  FixPruneAtomicFloor
+  FixPruneAtomicFloor,
+  FixSampleOnReorg
 
 VARIABLES
   disk,      \* durable: height, families (sets of block numbers), l1
@@ -168,7 +170,14 @@ Restart ==
 Sub(a, b) == IF a >= b THEN a - b ELSE 0
 Under(a, b) == a < b
 
-ApplyTimeFloor(standard) == IF MinAge THEN Min2(sampled, standard) ELSE standard
+(* applyTimeFloor.  The code uses the last periodic sample, whose search only ever moves up from
+   the previous result: after a reorg that replaces old blocks below the sample by young ones the
+   sample stays above them and they lose their protection (FixSampleOnReorg = FALSE, the code as
+   it is).  TRUE: the wall-clock floor is derived from the oldest retained block when it is used. *)
+ApplyTimeFloor(standard) ==
+  IF ~MinAge THEN standard
+  ELSE IF FixSampleOnReorg THEN Min2(SampleOf(disk, Oldest(disk)), standard)
+  ELSE Min2(sampled, standard)
 
 (* pruneUpto(keep): raise the floor, then PruneUpto(ctx, db, keep).  The no-op paths of PruneUpto
    complete here; otherwise the refinement below takes over. *)
